@@ -10,6 +10,12 @@
 void *memcpy(void *d, const void *s, size_t n)
 {
 	size_t k_;
+#ifdef UNIT_LOPT_TYPED	/* lbuf_opt's only memcpy copies hist_n whole history entries: copied entry by entry (byte copies of structs holding pointers are very expensive in CBMC) */
+	__CPROVER_assert(n % sizeof(struct lopt) == 0, "memcpy (typed model): a whole number of history entries");
+	for (k_ = 0; k_ < n / sizeof(struct lopt); k_++)
+		((struct lopt *) d)[k_] = ((const struct lopt *) s)[k_];
+	return d;
+#endif
 	for (k_ = 0; k_ < n; k_++)
 		((char *) d)[k_] = ((const char *) s)[k_];
 	return d;
